@@ -166,6 +166,19 @@ def selftest():
         for n in (4, 5, 8, 16, 31, 55, 56):
             k, blk = r.randbytes(n), r.randbytes(8)
             assert Blowfish(k).encrypt_block(blk) == o.crypt('BF-ECB', k, blk)
-    # OpenBSD / John-the-Ripper bcrypt test vectors ($2a$)
     assert bcrypt_b64(bytes(16)) == '......................'
+    # Openwall crypt_blowfish / John-the-Ripper bcrypt test vectors ($2a$)
+    for pw, salt22, full in ((b'U*U', 'CCCCCCCCCCCCCCCCCCCCC.', '$2a$05$CCCCCCCCCCCCCCCCCCCCC.E5YPO9kmyuRGyh0XouQYb4YMJKvyOeW'),
+                             (b'U*U*U', 'XXXXXXXXXXXXXXXXXXXXXO', '$2a$05$XXXXXXXXXXXXXXXXXXXXXOAcXxm9kjPGEMsLznoKqmqw7tc8WCx4a'),
+                             (b'', 'CCCCCCCCCCCCCCCCCCCCC.', '$2a$05$CCCCCCCCCCCCCCCCCCCCC.7uG0VCzI2bS7j6ymqJi9CdcdxiRTWNy'),
+                             (b'\xff\xff\xa3', '/OK.fbVrR/bpIqNJ5ianF.', '$2a$05$/OK.fbVrR/bpIqNJ5ianF.CE5elHaaO4EbggVDjb8P19RukzXSM3e')):
+        v = bits = 0
+        salt = bytearray()
+        for ch in salt22:
+            v = (v << 6) | B64.index(ch)
+            bits += 6
+            if bits >= 8:
+                bits -= 8
+                salt.append((v >> bits) & 255)
+        assert bcrypt(pw, bytes(salt[:16]), 5) == full
     return True
